@@ -54,8 +54,8 @@ def build(repo):
     U.fn(F, 'is_xchar_string', dict(props=P))
     U.fn(F, 'is_uchar_plus_string', dict(props=P, loops={1: dict(invariant=['cursor <= source@.len()'], decreases='source@.len() - cursor')}))
     U.fn(F, 'lex_login', dict(result='r', props=P, ensures=['r matches Some(n) ==> n <= source@.len()']))
-    U.fn(F, 'lex_ip_schemepart', dict(result='r', props=P, external_body=True, ensures=['r matches Some(n) ==> 2 <= n <= source@.len()'],
-                                      assumed='Some(n) ==> 2 <= n <= |source| (slice pattern `[\'/\', \'/\', ..]` is outside this Verus; Kani harness lexing.url_4, bounded)'))
+    U.fn(F, 'lex_ip_schemepart', dict(result='r', props=P, slice_matches=True, ensures=['r matches Some(n) ==> 2 <= n <= source@.len()'],
+                                      loops={1: dict(invariant=['cursor <= rest@.len()', 'rest@.len() + 2 == source@.len()'], decreases='rest@.len() - cursor')}))
     U.fn(F, 'lex_url', dict(result='r', props=P, ensures=['found_ok(source@, r)', 'r.is_some() ==> r.unwrap().token is Url']))
     U.fn(H, 'lex_hostname_token', dict(result='r', props=P, ensures=['found_ok(source@, r)', 'r.is_some() ==> r.unwrap().token is Hostname && r.unwrap().next_index >= 2']))
     U.raw(common.FOOTER)
